@@ -6,12 +6,17 @@ package quic
 // Conn, frames parsed back from a real packetWriter, fates through the real handleAckOrLoss).
 //   send side  (shape B): VerifC32_send, VerifC32_code — the wire observer qsSender.observe asserts that no STREAM
 //                         frame follows a reset and that every RESET_STREAM states final size == highest offset sent.
+//   send side  (shape I): VerifC32_resetstep — one packet (ordinary or PTO probe) from an arbitrary state of a reset
+//                         stream (RESET_STREAM unsent / in flight / acknowledged, FIN and opening in any state).
 //   receive side (shape B): VerifC32_recv — STREAM/RESET_STREAM frames around the known final size, Read/CloseRead.
 //   receive side (shape I, full 62-bit width): VerifC32_bounds (checkStreamBounds), VerifC32_reset (handleReset).
 //
 // Sensitivity (sh mut.sh, all caught):
 //   stream.go appendOutFramesLocked: RESET_STREAM final size `s.outmaxsent` -> `s.out.end`          caught by VerifC32_send
 //   stream.go appendOutFramesLocked: `if s.outreset.isSet()` -> `... && !pto` (STREAM after reset)  caught by VerifC32_send
+//   seeded C32-A: appendOutFramesLocked `if outreset.isSet() {if shouldSendPTO {...}; return true}` flattened to
+//     `if outreset.shouldSendPTO(pto) {...; return true}` (STREAM+FIN on a PTO probe after the RESET_STREAM was acked)
+//     caught by VerifC32_resetstep and by the settle phase of VerifC32_send
 //   stream.go checkStreamBounds: `fin && insize != -1 && end != insize` -> `end > insize`           caught by VerifC32_recv
 //     (and by VerifC32_bounds / VerifC32_reset, which state the verdict at full width)
 
